@@ -2,6 +2,22 @@
 # Generates MANIFEST.json from the table below (kept in one place so it stays valid).
 import json
 checks = {
+ "C07": dict(cat="model_checking",
+   text="For ~14k inputs (corpus programs, every ordered pair of 48 token/separator/lexical-failure spellings incl. multi-byte characters) every partition into reads is enumerated: all 2^(n-1) compositions for n<=13 (thorough 16) plus zero-byte reads, all <=2 (3) cut points for longer inputs, and the real 4096-byte page boundary at every offset; ParseFile on the scripted reader must equal Parse on the whole input (success, byte-identical dump, diagnostics).",
+   note="Trusted: scripted FileInput (mc/impl.ScriptFile). Goroutine schedules free-running here; schedule independence is C11/C16's claim.",
+   tech="exhaustive enumeration of read partitions (environment answers) with a differential oracle against the unchunked parse", ref="§4 C07"),
+ "C08": dict(cat="model_checking",
+   text="Corpus programs, single-token deviations (a diagnostic at every token position), failing-operator chains and padded sources crossing varint/page boundaries, re-rendered under all layouts with <=1 (2) deviating gaps over 25 separators; the reference lexer/parser/evaluator predict the byte offset of the first diagnostic, runtime error and warnings; every printed line:col must map back to an offset and quote the source text ending there; the dump's line table must equal the newline offsets; diagnostics are identical under chunking and after dump+load.",
+   note="Trusted: reference model mc/ref and its offset<->line:col conversion by newline counting. Only the first compile diagnostic's location is predicted.",
+   tech="bounded-exhaustive enumeration of sources x layouts against a reference model of positions", ref="§4 C08"),
+ "C19": dict(cat="model_checking",
+   text="For ~10^5 programs (corpus, scaled, statement sequences) all 8 option combinations x 3 API paths are executed: results, errors and diagnostics must equal the option-free run, program lines must be unchanged after removing lines a strict grammar recognises as listing/trace/statistics, the disassembly must list the independent decoder's instruction starts once each in order, and the trace must equal the reference VM's executed pc sequence with a count equal to xstats.opsRead.",
+   note="Trusted: line grammar of the introspection output; programs whose string constants contain a newline are compared on results only.",
+   tech="exhaustive enumeration of configurations (8 option sets x 3 paths) over an enumerated program family, reference-VM trace oracle", ref="§4 C19"),
+ "C20": dict(cat="model_checking",
+   text="For every corpus program the canonical rendering is compared with every re-rendering having <=2 deviating gaps over 25 separators (all whitespace kinds, adjacency where legal, comments with hostile bodies), all-gaps-same renderings, toggled optional ';' and 1-2 redundant parenthesis pairs around each sub-expression (pairs of sites too): code and constants sections (independent decoder), output, blocks, binding, error and first diagnostic must be identical; string bodies with special characters and comments before tokens are checked against the reference evaluator.",
+   note="Trusted: reference lexer decides where adjacency keeps the token sequence.",
+   tech="bounded-exhaustive enumeration of layout deviations with a same-meaning (differential) oracle", ref="§4 C20"),
  "C09": dict(cat="model_checking",
    text="For every accepted program of the corpus K and the scaled families S (constants, identifiers, block and program names around every varint size class and the 4096-byte buffers, boundary floats and ints): Dump, then LoadProg under every member of a bounded family of read deliveries (whole, 1 byte/read, data+EOF, halves, all fixed sizes 2..17 and 4095..4097, every partition with <=1/2/3 cut points depending on dump size); disassembly, execution results, error positions and the re-dump must be identical, and the independent decoder must recover name and line table.",
    note="Trusted: corpus reaches the size classes named in the property; float constants limited to boundary bit patterns; dumps > 6 kB get the fixed-size deliveries only.",
